@@ -238,6 +238,87 @@ def rule_rdr(S, la):
     S.require('R-RDR', 'reader entry points', n, 12)
 
 
+def rule_wait(S, la):
+    """R-WAIT: a lock-free reader never parks itself until a version word *changes*."""
+    facts = la.facts
+    S.rule('R-WAIT', 'in the call graphs of the lock-free readers no loop consists of nothing but re-loading a version '
+                     'word (get_stable_version / get_body / pause) and continues while the fresh value EQUALS an earlier '
+                     'snapshot: nobody is obliged to change that word again, so the reader may wait for ever (re-sampling '
+                     'until two loads agree, or until lock / dirty bits clear, is the accepted idiom)')
+    names = [Y + 'get', Y + 'scan', Y + 'scan_border', Y + 'iscan_findfirst', Y + 'iscan_findnext', Y + 'iscan_next',
+             Y + 'find_border', Y + 'interior_node::get_child_of', Y + 'border_node::get_lv_of',
+             Y + 'scan_check_retry', Y + 'iscan_check_retry']
+    WAIT_OK = ('get_stable_version', 'get_body', 'get_version', '_mm_pause', 'sleep_for', 'yield', 'operator==',
+               'operator!=', 'operator=', 'load', 'microseconds', 'milliseconds', 'duration')
+    roots = [f for q in names for f in facts.by_qname(q) if not f.is_lambda]
+    reach = R.reachable_funcs(facts, roots, stop=lambda g: g.qname.startswith(Y + 'storage::'))
+    nloops = 0
+    for g in sorted(reach.values(), key=lambda x: x.fid):
+        if not g.blocks:
+            continue
+        # natural loops: one per back edge u -> h (h dominates u)
+        from yk.flow import dominators
+        dom = dominators(g)
+        preds = g.preds()
+        comps = []
+        for u in dom:
+            for h in g.blocks[u].succ:
+                if h is not None and h in dom.get(u, ()):
+                    body = {h, u}
+                    work = [u] if u != h else []
+                    while work:
+                        x = work.pop()
+                        for (pb, _) in preds.get(x, []):
+                            if pb not in body and pb in dom:
+                                body.add(pb)
+                                work.append(pb)
+                    comps.append(sorted(body))
+        for comp in comps:
+            cs = set(comp)
+            nloops += 1
+            calls = [g.node(e) for b in comp for e in g.blocks[b].elems if g.node(e)['k'] in CALL_KINDS or
+                     g.node(e)['k'] == 'CXXConstructExpr']
+            pure = all(any(w in (c.get('cn') or c.get('cq') or c.get('ty') or '') for w in WAIT_OK) or
+                       (c.get('cq') or '').startswith(Y + 'node_version64_body::') for c in calls)
+            reloads = any((c.get('cn') or '') in ('get_stable_version', 'get_body', 'get_version') for c in calls)
+            if not (pure and reloads):
+                continue
+            # an exit test that stays in the loop on the EQUAL edge of a comparison of two version words
+            for b in comp:
+                blk = g.blocks[b]
+                t = blk.term
+                if not t or 'cond' not in t or len(blk.succ) != 2:
+                    continue
+                stay = [i for i, x in enumerate(blk.succ) if x in cs]
+                if len(stay) != 1:
+                    continue
+                c = g.strip(g.node(t['cond']))
+                flip = False
+                while c is not None and c['k'] == 'UnaryOperator' and c.get('op') == '!':
+                    flip = not flip
+                    c = g.strip(g.ch(c)[0])
+                if c is None:
+                    continue
+                op = None
+                if c['k'] == 'CXXOperatorCallExpr' and c.get('cn') in ('operator==', 'operator!='):
+                    op = '==' if c['cn'] == 'operator==' else '!='
+                    tys = [(g.strip(g.node(a), casts=True) or {}).get('ty', '') for a in c.get('args', [])]
+                elif c['k'] == 'BinaryOperator' and c.get('op') in ('==', '!='):
+                    op = c['op']
+                    tys = [(g.strip(x, casts=True) or {}).get('ty', '') for x in g.ch(c)]
+                if op is None or not any('node_version64_body' in (ty or '') for ty in tys):
+                    continue
+                truth = (stay[0] == 0) != flip
+                equal_stays = truth if op == '==' else not truth
+                S.ob('R-WAIT', fname(g), 'wait loop at ' + short_loc(c), not equal_stays,
+                     're-samples until two loads agree' if not equal_stays else
+                     'spins while a freshly loaded version still equals an earlier snapshot, i.e. until somebody changes '
+                     'the node again: if the change it waits for already happened (or never comes) the reader never '
+                     'returns', loc=short_loc(c))
+    S.count('R-WAIT: loops inspected in the reader call graphs', nloops)
+    S.require('R-WAIT', 'loops in the reader call graphs', nloops, 10)
+
+
 def run(S):
     S.undecided = ['termination of the optimistic retry loops and of get_child_of\'s wait loop under fair schedules '
                    '(livelock / starvation)',
@@ -255,6 +336,7 @@ def run(S):
     rule_ordl(S, la)
     rule_nsw(S, la)
     rule_rdr(S, la)
+    rule_wait(S, la)
     # the lock word itself: a stale or non-atomic update of the version word can re-set the lock bit after the
     # owner released it (shared with C17)
     from checks.C17 import rule_casl, rule_mx
